@@ -1,40 +1,74 @@
 (** C22 -- the TL2 formatter (TL2File.Print / TL2Combinator.Print, default and canonical options) round-trips
     through ParseTL2File and is idempotent.
 
-    Full statement (not proved: it needs a Gallina model of the whole TL2 parser):
-      for every file a in the image of ParseTL2File and both option sets o:
-        parse2 (fmt2 o a) = Ok a'  /\  erase a' = erase a   and   fmt2 o a' = fmt2 o a
-    where [erase] drops positions and comments.  It is observed on the Go side by every run of lib/checks/C22.py
-    (ParseTL2File -> Print -> ParseTL2File, AST dumps and texts compared), and it is FALSE as stated: see
-    the deprecated-field-name finding (F19) of the check; finding F8 (one-variant unions) was repaired in /repo and
-    is kept as [C22_fmt2_old_single_variant_refuted].
+    Statement:  for every file a in the image of ParseTL2File and both option sets o:
+        parse2 (fmt2 o a) = Ok a'  /\  erase a' = erase a        and        fmt2 o a' = fmt2 o a
+    where [erase] drops positions and comments.
 
-    Proved here, over all ASTs / all byte strings (the model [fmt2] is tied to the Go printers, [lex2] to the Go
-    lexer and [parse_ty] to parseTL2Type by the correspondence run):
-      - [C22_lex_fmt2_partial]: for every option record whatsoever (so: default, canonical, any line widths) the
-        text printed for a well-formed file lexes -- comments, blanks, line breaks and indentation skipped -- to
-        exactly the token stream [toks_file] of the AST: no token is lost, split, merged or invented by the layout
-        (names next to names are separated, '<' is never followed by '=>', magic is exactly 8 hex digits, every
-        comment line the printer writes is closed by a line feed before the next token, ...).  The only thing the
-        layout decides is whether the first variant of a union carries its bar ([comb_bar]).
-      - [C22_options_same_tokens]: hence default and canonical output carry the same tokens (identical for
-        everything but unions, where they may differ in that one leading '|').
-      - [C22_parse_print_typeref_partial], [C22_parse_print_typeref_tail_partial]: for the type-expression
-        sub-grammar the round trip itself: lexing then parseTL2Type on a printed type reference returns that
-        reference and stops exactly at its end; so [C22_print_typeref_injective].
-    [_partial]: what is missing for the full statement is the parser above type expressions (fields, unions,
-    declarations) and the comment attachment. *)
-From TLV Require Import Fmt2.Fmt2Model Fmt2.Fmt2LexModel Fmt2.Fmt2Proofs Fmt2.Fmt2PrintProofs.
+    Models (all tied to /repo's current source by the correspondence run of lib/checks/C22.py): [fmt2] = the Go
+    printers, [lex2] = the TL2 lexer (significant tokens), [parse2] = lexer + ParseTL2File on those tokens with
+    comments erased (Fmt2ParseModel; OptionalState transcribed).
+
+    Proved, over all ASTs and every option record (so: default, canonical, any line widths):
+      - [C22_roundtrip]: parse2 (fmt2 o a) = Some (erase a) for every well-formed a.  The hypotheses are the
+        lexical ones ([wf_comb]: identifiers are identifiers, no type called Type, no bare marker, every trimmed
+        comment line is a TL2 comment) and the structural ones ([wf2_file]: fields are named -- except the single
+        anonymous result of a function --, an ignored field is called `_`, magic fits 32 bits and is non-zero for
+        functions, unions are non-empty); lib/checks/C22.py evaluates them on every AST the real parser returns
+        (ops of kind wf): they hold for all of them except the two shapes named below.
+      - [C22_idempotent_ignoring_comments]: for an option set that ignores comments (the canonical one)
+        fmt2 o (parse2 (fmt2 o a)) = fmt2 o a;  [C22_roundtrip_exact]: a comment-free file comes back exactly, with
+        any option set (hence idempotence there too).
+      - [C22_lex_fmt2]: the layout never loses, splits, merges or invents a token; the only thing it decides is
+        whether the first variant of a union carries its bar ([comb_bar]); [C22_options_same_tokens].
+      - the type-expression sub-grammar on its own: [C22_parse_print_typeref], [C22_print_typeref_injective].
+    Refuted: the statement for ASTs with a deprecated field name `_name` ([C22_refuted_dep_name], finding F19: the
+    hypothesis "an ignored field is called `_`" is necessary); historically for one-variant unions
+    ([C22_fmt2_old_single_variant_refuted], finding F8, repaired in /repo by commit 3b6a30bc).
+    Partial ([_partial]): with the default options the comments are part of the text; the parser model erases
+    them, so idempotence with comments present (CommentBefore attachment) is observed on the Go side by every run
+    of the check (print, re-parse, print again: texts compared), not proved. *)
+From TLV Require Import Fmt2.Fmt2Model Fmt2.Fmt2LexModel Fmt2.Fmt2ParseModel Fmt2.Fmt2Proofs Fmt2.Fmt2PrintProofs Fmt2.Fmt2ParseProofs.
 Open Scope N_scope.
 
-Theorem C22_lex_fmt2_partial : forall o f, forallb (wf_comb o) f = true -> lex2 (fmt2 o f) = Some (toks_file o f).
-Proof. exact lex_fmt2. Qed.
-Print Assumptions C22_lex_fmt2_partial.
+Theorem C22_roundtrip : forall o f, forallb (wf_comb o) f = true -> wf2_file o f = true ->
+  parse2 (fmt2 o f) = Some (map erase_comb f).
+Proof. exact parse2_fmt2. Qed.
+Print Assumptions C22_roundtrip.
 
-Theorem C22_lex_print_comb_partial : forall o c, wf_comb o c = true ->
+Theorem C22_roundtrip_exact : forall o f, forallb nocm_comb f = true -> forallb (wf_comb o) f = true -> wf2_file o f = true ->
+  parse2 (fmt2 o f) = Some f.
+Proof. exact parse2_fmt2_exact. Qed.
+Print Assumptions C22_roundtrip_exact.
+
+Theorem C22_idempotent_ignoring_comments : forall o f, o_ignore o = true -> forallb (wf_comb o) f = true -> wf2_file o f = true ->
+  exists f', parse2 (fmt2 o f) = Some f' /\ fmt2 o f' = fmt2 o f.
+Proof. exact fmt2_idempotent_ignore. Qed.
+Print Assumptions C22_idempotent_ignoring_comments.
+
+(* with comments and the default options: only the erased round trip is proved; the text-level idempotence
+   fmt2 default (parse (fmt2 default a)) = fmt2 default a needs the comment attachment of the parser *)
+Theorem C22_idempotent_default_partial : forall f, forallb nocm_comb f = true ->
+  forallb (wf_comb default_options) f = true -> wf2_file default_options f = true ->
+  exists f', parse2 (fmt2 default_options f) = Some f' /\ fmt2 default_options f' = fmt2 default_options f.
+Proof. intros f H1 H2 H3. exists f. split; [now apply parse2_fmt2_exact|reflexivity]. Qed.
+Print Assumptions C22_idempotent_default_partial.
+
+Theorem C22_refuted_dep_name :
+  exists c, wf_comb default_options c = true /\ wf_comb canonical_options c = true /\
+    forall o, o = default_options \/ o = canonical_options ->
+      exists c', parse2 (fmt2 o [c]) = Some [c'] /\ c' <> erase_comb c.
+Proof. exact fmt2_refuted_dep_name. Qed.
+Print Assumptions C22_refuted_dep_name.
+
+Theorem C22_lex_fmt2 : forall o f, forallb (wf_comb o) f = true -> lex2 (fmt2 o f) = Some (toks_file o f).
+Proof. exact lex_fmt2. Qed.
+Print Assumptions C22_lex_fmt2.
+
+Theorem C22_lex_print_comb : forall o c, wf_comb o c = true ->
   lex2 (print_comb o c) = Some (toks_comb (comb_bar o c) c).
 Proof. exact lex_print_comb. Qed.
-Print Assumptions C22_lex_print_comb_partial.
+Print Assumptions C22_lex_print_comb.
 
 Theorem C22_options_same_tokens : forall c, wf_comb default_options c = true ->
   lex2 (print_comb default_options c) = Some (toks_comb (comb_bar default_options c) c) /\
@@ -43,16 +77,16 @@ Theorem C22_options_same_tokens : forall c, wf_comb default_options c = true ->
 Proof. exact fmt2_options_same_tokens. Qed.
 Print Assumptions C22_options_same_tokens.
 
-Theorem C22_parse_print_typeref_partial : forall t, wf_tref t = true ->
+Theorem C22_parse_print_typeref : forall t, wf_tref t = true ->
   parse_ty_bytes (print_tref t) = Some (POk t []).
 Proof. exact parse_print_tref. Qed.
-Print Assumptions C22_parse_print_typeref_partial.
+Print Assumptions C22_parse_print_typeref.
 
-Theorem C22_parse_print_typeref_tail_partial : forall t tail rest,
+Theorem C22_parse_print_typeref_tail : forall t tail rest,
   wf_tref t = true -> nid tail -> lex2 tail = Some rest -> hd_is 60 rest = false ->
   parse_ty_bytes (print_tref t ++ tail) = Some (POk t rest).
 Proof. exact parse_print_tref_tail. Qed.
-Print Assumptions C22_parse_print_typeref_tail_partial.
+Print Assumptions C22_parse_print_typeref_tail.
 
 Theorem C22_print_typeref_injective : forall t1 t2,
   wf_tref t1 = true -> wf_tref t2 = true -> print_tref t1 = print_tref t2 -> t1 = t2.
@@ -130,3 +164,25 @@ Example ex_f8_type : print_comb canonical_options f8_type_union = [97; 32; 61; 3
   lex2 (print_comb canonical_options f8_union) = Some (toks_comb true f8_union) /\
   toks_comb true f8_union <> toks_comb true f8_struct.
 Proof. repeat split; vm_compute; congruence. Qed.
+
+(* the whole round trip on the examples: the hypotheses hold and the parser model gives the declarations back *)
+Example ex_roundtrip : wf2_file default_options [ex_union; ex_union_cm; f8_union; f8_type_union] = true /\
+  parse2 (fmt2 default_options [ex_union; ex_union_cm; f8_union; f8_type_union]) =
+    Some (map erase_comb [ex_union; ex_union_cm; f8_union; f8_type_union]) /\
+  parse2 (fmt2 canonical_options [ex_union; ex_union_cm]) = Some (map erase_comb [ex_union; ex_union_cm]).
+Proof. repeat split; vm_compute; reflexivity. Qed.
+(* function with two arguments and an anonymous result; `a = ;`; alias *)
+Definition ex_func : comb :=
+  Comb [] [[114]] (DFunc (TName [110] [102]) 3735928559 [Field [120] true false [] t_int; Field [95] false true [] ex_ty]
+                         (DStruct [Field [] false false [] (TArr t_int)])).
+Example ex_func_roundtrip : wf_comb default_options ex_func = true /\ wf2_file default_options [ex_func] = true /\
+  fmt2 default_options [ex_func] =
+    [64; 114; 32; 110; 46; 102; 35; 100; 101; 97; 100; 98; 101; 101; 102; 32; 120; 63; 58; 105; 110; 116; 32; 95; 58; 91; 91; 93; 108; 105;
+     115; 116; 60; 91; 93; 105; 110; 116; 62; 93; 97; 114; 114; 97; 121; 60; 50; 44; 91; 93; 91; 93; 115; 116; 114; 105; 110; 103; 62; 32;
+     61; 62; 32; 91; 93; 105; 110; 116; 59; 10] /\
+  parse2 (fmt2 default_options [ex_func]) = Some [ex_func].
+Proof. repeat split; vm_compute; reflexivity. Qed.
+(* the structural hypotheses exclude what the parser cannot give back *)
+Example ex_not_wf2 : wf2_file default_options [f19_comb] = false /\
+  wf2_file default_options [Comb [] [] (DFunc (TName [] [102]) 0 [] (DStruct []))] = false.
+Proof. split; vm_compute; reflexivity. Qed.
